@@ -259,6 +259,23 @@ def uf_state_step(n):
     return h
 
 
+def uf_constructor(sx):
+    """UnionFind(iterable): the same structure as adding the elements one by one (repeated elements once)"""
+    from mouette.utils import UnionFind
+    n = 1 + sx.choice("n_given", 4)
+    given = [sx.int("g%d" % i, 0, 2) for i in range(n)]
+    uf = UnionFind(list(given))
+    m = Model()
+    for x in given:
+        m.add(x)
+    observe(sx, uf, m, "int", " [built from an iterable with possibly repeated elements]")
+    if sx.flag("then_union"):
+        x, y = sx.int("ux", 0, 2), sx.int("uy", 0, 2)
+        uf.union(x, y)
+        m.union(x, y)
+        observe(sx, uf, m, "int", " [built from an iterable, then one union]")
+
+
 def uf_empty(sx):
     """observers on an empty structure"""
     from mouette.utils import UnionFind
@@ -381,6 +398,8 @@ def obligations(tier):
            note="UnionFind history over a mixture of ints and strings"),
         Ob("uf-state-step", uf_state_step(4 if q else 5), covers=COVERS_UF, split=5,
            note="one operation from every forest state on %d nodes (arbitrary depth and index order), then all observers" % (4 if q else 5)),
+        Ob("uf-constructor", uf_constructor, covers=COVERS_UF + ["mouette.utils.unionfind:UnionFind.__init__"], hash_mode="constant", split=4,
+           note="construction from an iterable of <=4 elements in [0,2] (repetitions included)"),
         Ob("uf-empty", uf_empty, covers=COVERS_UF, note="observers on an empty UnionFind"),
         Ob("pq-real", pq_history(4 if q else 6, False), covers=COVERS_PQ, split=5,
            note="PriorityQueue history with symbolic real priorities (ties included)"),
